@@ -591,7 +591,7 @@ theorem kept_through_cri (cfg : LexCfg) (sp1 k rest : List Byte) (eof fail sk : 
     { left := k.reverse ++ sp1.reverse, right := rest, eof := eof, fail := fail, bad := false, skipws := sk } e rfl
   generalize checkRemainingInput cfg (some attrDelims)
     { left := k.reverse ++ sp1.reverse, right := rest, eof := eof, fail := fail, bad := false, skipws := sk } e = X at hm1 hm2 ⊢
-  refine ⟨sp1 ++ k, lay, g, ?_, ?_, (NoCP.blanks h1).append hk, hm3, NoCP.of_notDelim hm4⟩
+  refine ⟨sp1 ++ k, lay, g, ?_, ?_, (NoCP.blanks h1).append hk, hm3, NoCP.of_notDelim (fun b hb => delimAt_false (hm4 b hb))⟩
   · simp only at hm2; rw [hm2]; simp
   · simp only at hm1; rw [hm1]; simp
 
@@ -713,7 +713,7 @@ theorem kept_through_cri' (cfg : LexCfg) (sp1 k : List Byte) (s : IStream) (e : 
     KeptDelims cfg (sp1 ++ k ++ s.right) (checkRemainingInput cfg (some attrDelims) s e).1 := by
   obtain ⟨lay, g, hm1, hm2, hm3, hm4⟩ := cri_left cfg s e hb
   generalize checkRemainingInput cfg (some attrDelims) s e = X at hm1 hm2 ⊢
-  refine ⟨sp1 ++ k, lay, g, ?_, ?_, (NoCP.blanks h1).append hk, hm3, NoCP.of_notDelim hm4⟩
+  refine ⟨sp1 ++ k, lay, g, ?_, ?_, (NoCP.blanks h1).append hk, hm3, NoCP.of_notDelim (fun b hb => delimAt_false (hm4 b hb))⟩
   · rw [hm2]; simp
   · rw [hm1, hl]; simp
 
